@@ -214,6 +214,52 @@ func runC04(c *eng.Ctx) {
 	}
 	c.Floor(8)
 
+	// ---- R04.6 admission: the size test is applied to the very message that joins the batch
+	c.Rule("R04.6", "K1")
+	if fn := c.Fn("server.(*partition).messageProcessingLoop"); fn != nil {
+		n := 0
+		eng.Instrs(fn, func(in ssa.Instruction) {
+			call, ok := in.(*ssa.Call)
+			if !ok {
+				return
+			}
+			b, ok := call.Call.Value.(*ssa.Builtin)
+			if !ok || b.Name() != "append" {
+				return
+			}
+			el := variadicElems(call.Call.Args[1])
+			if len(el) != 1 {
+				return
+			}
+			mk := eng.AsCall(el[0])
+			if mk == nil || eng.CalleeRef(&mk.Call) != "server.natsToProtoMessage" {
+				return
+			}
+			n++
+			raw := mk.Call.Args[0] // the NATS message this batch element was built from
+			fits := eng.CmpEdges(fn, eng.Len(eng.LoadNamed("Data", eng.Same(raw))), eng.LoadNamed("ReplicationMaxBytes", nil), eng.LE)
+			g, w := eng.GuardedBy(fn, call, fits)
+			c.Check(g && len(fits) > 0, "batch element admitted only after its own size test", c.Pos(call), "append(msgBatch, m) is reached only over len(msg.Data) <= ReplicationMaxBytes for the msg that m was built from", "a message joins the batch without its own size having been tested (the test reads another message, or is missing) (path "+w.String()+"): a message larger than replication.max.bytes is stored and acknowledged instead of being nacked")
+		})
+		// the nack goes to the message that failed the test
+		for _, nk := range eng.CallsIn(fn, "server.partition.sendTooLargeNack") {
+			mk := eng.AsCall(nk.Common().Args[1])
+			ok := mk != nil && eng.CalleeRef(&mk.Call) == "server.natsToProtoMessage"
+			var w *eng.Witness
+			if ok {
+				big := eng.CmpEdges(fn, eng.Len(eng.LoadNamed("Data", eng.Same(mk.Call.Args[0]))), eng.LoadNamed("ReplicationMaxBytes", nil), eng.GT)
+				var g bool
+				g, w = eng.GuardedBy(fn, nk.(ssa.Instruction), big)
+				ok = g && len(big) > 0
+			}
+			c.Check(ok, "too-large nack names the message that failed the test", c.Pos(nk.(ssa.Instruction)), "sendTooLargeNack(m) only over len(msg.Data) > ReplicationMaxBytes for m's own msg", "the TOO_LARGE nack is sent for a message other than the one whose size was tested (path "+w.String()+")")
+		}
+		if n == 0 {
+			c.Unresolved("append(msgBatch, natsToProtoMessage(...)) in messageProcessingLoop")
+		}
+	}
+	c.Floor(6)
+
 	// ---- R04.5 replica progress
 	c.Rule("R04.5", "K3")
 	c.WhoMayCall("updateISRLatestOffset", []string{"server.partition.updateISRLatestOffset"},
